@@ -24,7 +24,7 @@ Print Assumptions C09_covered_cases.
    reaches the internal-error path on an ERROR packet with code 9 *)
 Definition d5_case : tcase :=
   {| t_content := [1; 2; 3]%N; t_chunks := []; t_netascii := false; t_options := [];
-     t_limits := {| max_bs := 65464; max_tmo := 30; default_tmo := 2 |}; t_retries := 1; t_wrap := Some 0%N;
+     t_limits := {| max_bs := 65464; max_tmo := 30720; default_tmo := 2048 |}; t_retries := 1; t_wrap := Some 0%N;
      t_kind := KNoFileno; t_events := [Recv 5 0%N [0; 5; 0; 9; 0]%N];
      t_proc := 0; t_v := {| retry_fallthrough := false; errcode_raises := true; late_recv := false |}; t_nv := ncurrent; t_na_always_skip := false |}.
 Theorem C09_refuted_D5_errcode : holds d5_case (run_transfer_case d5_case) <> [].
